@@ -95,10 +95,12 @@ def epochSharesOK (pre : St) (changes : List (String × String × Nat × Nat)) :
     let lps := (pre.lpsOf sym).filter (fun e => eligible pre e.2)
     let U : Nat := lps.foldl (fun a e => a + e.2.units) 0
     let n : Nat := lps.length
-    U == 0 || lps.all (fun e =>
+    lps.all (fun e =>
       let paid : Nat := match changes.find? (fun c => c.1 == e.1 && c.2.1 == sym) with
                         | some c => c.2.2.2 - c.2.2.1
                         | none => 0
+      -- no eligible provider holds a unit: nobody has a share, nobody is paid
+      if U == 0 then paid == 0 else
       let fair : Rat := mkRat e.2.units U * (Nat.cast B : Rat)
       decide (fair - (Nat.cast n : Rat) * eps (Nat.cast B : Rat) ≤ (Nat.cast paid : Rat)) && decide ((Nat.cast paid : Rat) ≤ fair + eps (Nat.cast B : Rat))))
 
